@@ -421,8 +421,9 @@ def rel_c13(c):
                 continue
             o = loadreplay.observe(c, style=style, doc=doc)
             n += 1
-            cur = (o['outcome'], json.dumps(unordered(o['value']),
-                                            sort_keys=True, default=repr)
+            # compared as values (frozensets), never through their repr,
+            # whose order is not canonical
+            cur = (o['outcome'], unordered(o['value'])
                    if o['outcome'] == 'VAL' else '')
             if base is None:
                 base = (cur, o['text'])
